@@ -216,3 +216,11 @@ package panos
 //vc:  invariant[C03] 3 "for i := 1; ; i++" @ruleNamesUntouchedWhileSearching forall q *panRule :: { q.Name } q.Name == loopold(q.Name)
 //vc:  ensures[C03] @deviceRuleNamesKnown forall j int :: { ab.a.rules[j] } 0 <= j && j < len(ab.a.rules) ==> (old(ab.a.rules[j].Name) in aNames) && aNames[old(ab.a.rules[j].Name)]
 //vc:  ensures[C03] @netspocRuleNamesFree forall k int :: { ab.b.rules[k] } 0 <= k && k < len(ab.b.rules) ==> !((ab.b.rules[k].Name in aNames) && aNames[ab.b.rules[k].Name])
+
+// ---- C09: a device reply without <devices><entry> is an error, not a crash ----
+// getDevName reads the first device entry; its only caller checks that there
+// is one (the reply '<result/>' of a device whose xpath matched nothing used to
+// end in a runtime panic: no FAILED in the status file, no END line).
+//vc:func (*PanConfig).getDevName
+//vc:  requires[C09,C20] @hasDeviceEntry c.Devices != nil && len(c.Devices.Entries) > 0
+//vc:  ensures result == c.Devices.Entries[0].Hostname
